@@ -163,7 +163,7 @@ impl Property for C03 {
         }
     }
     fn required_labels(&self, _tier: Tier) -> Vec<&'static str> {
-        vec!["nontrivial", "ancestors>30", "parents>30", "records>255", "kind-with-zero-records", "term-linked-to-all-records", "rec-without-terms", "setter-grid", "records>32767", "records=65535", "depth>255", "bulk>65535-terms"]
+        vec!["nontrivial", "ancestors>30", "parents>30", "records>255", "kind-with-zero-records", "term-linked-to-all-records", "rec-without-terms", "setter-grid", "records>32767", "records=65535", "depth>255", "bulk>65535-terms", "direct-parents>255"]
     }
     fn run_generated(&self, tier: Tier, seed: u64, n: u64, stats: &mut Stats) -> Option<(Value, Failure)> {
         let max = if tier == Tier::Quick { 44 } else { 90 };
@@ -200,6 +200,16 @@ impl Property for C03 {
             }
             return Ok(r);
         }
+        if let Some(b) = case.get("fanin") {
+            let v: (u32, u32, u32, PathSel) = serde_json::from_value(b.clone()).map_err(|e| e.to_string())?;
+            stats.cases += 1;
+            let c = OntCase { facts: super::common::fanin_facts(v.0, v.1, v.2), path: v.3, noise: Default::default() };
+            let r = check(&c, stats);
+            if r.is_ok() {
+                stats.label("direct-parents>255");
+            }
+            return Ok(r);
+        }
         replay_typed::<OntCase, _>(case, stats, check)
     }
     fn extra(&self, _tier: Tier, _seed: u64, stats: &mut Stats) -> Vec<(Value, Failure)> {
@@ -222,6 +232,7 @@ impl Property for C03 {
         let mut out: Vec<Value> = plans.into_iter().map(|p| json!({"large": p})).collect();
         let mult = [7919u32, 104_729][(seed % 2) as usize];
         out.push(json!({"deep": (300u32, mult, 25u32, PathSel::Builder)}));
+        out.push(json!({"fanin": (300u32, mult, 25u32, PathSel::Bin(3))}));
         out.push(json!({"bulk": (65_800u32, mult, 50u32, PathSel::Builder)}));
         if tier == Tier::Thorough {
             out.push(json!({"deep": (1100u32, mult, 60u32, PathSel::Bin(3))}));
